@@ -9,8 +9,17 @@
 //!    the node served before), a multi-key read agrees with the single-key reads
 //!    (MGET = [GET ..], EXISTS k1 k2 = EXISTS k1 + EXISTS k2);
 //!  * Q1 after every forwarded delta has been applied at every other node, and Q2 after a
-//!    full-state exchange built from `snapshot_state()`: all nodes answer GET alike, and each
-//!    answer equals the node's own `client_view` of its snapshot entry.
+//!    full-state exchange built from `snapshot_state()`: all nodes answer GET / HGETALL alike,
+//!    each answer equals the node's own `client_view` of its snapshot entry, and equals the
+//!    per-slot LWW winner (string register, each hash field) over all forwarded deltas —
+//!    i.e. what one-by-one delivery and merging yields.
+//!
+//! Delivery granularity: deltas reach a node singly (`Deliver`), as a generated BATCH of 1–6
+//! in-flight deltas handed to `apply_remote_deltas` in one call (any order, duplicates,
+//! several per key, several authors), or as a full-state batch (a peer's whole snapshot, the
+//! anti-entropy / SyncResponse shape), optionally mixed with in-flight deltas (relay).
+//! String keys and hash keys are separate pools and values are numeric, so that none of the
+//! open actor-level findings is in play: this tier runs without any tolerance.
 
 use proptest::prelude::*;
 use redis_sim::production::ReplicatedShardedState;
@@ -51,6 +60,29 @@ fn keys() -> &'static Vec<String> {
     })
 }
 
+/// hash keys: one in the shard of keys()[0], one elsewhere
+fn hkeys() -> &'static Vec<String> {
+    static K: OnceLock<Vec<String>> = OnceLock::new();
+    K.get_or_init(|| {
+        let home = shard_of(&keys()[0]);
+        let mut same = None;
+        let mut other = None;
+        for i in 0..400 {
+            let k = format!("h{}", i);
+            if shard_of(&k) == home {
+                same.get_or_insert(k);
+            } else {
+                other.get_or_insert(k);
+            }
+        }
+        vec![same.expect("hash key pool"), other.expect("hash key pool")]
+    })
+}
+
+fn is_hash_key(k: &str) -> bool {
+    hkeys().iter().any(|h| h == k)
+}
+
 #[derive(Clone, Debug, Serialize, Deserialize)]
 pub enum CStep {
     Cmd { node: u8, argv: Vec<String> },
@@ -58,6 +90,12 @@ pub enum CStep {
     Deliver { idx: u16 },
     /// duplicate one in flight
     Dup { idx: u16 },
+    /// hand 1-6 of the deltas in flight to node `to` to `apply_remote_deltas` in ONE call, in
+    /// the order of `picks` (fractions of the list; the same delta may be picked twice)
+    Batch { to: u8, picks: Vec<u16> },
+    /// full-state batch: every entry of `from`'s snapshot_state() as one call at `to` (the
+    /// anti-entropy shape), with the picked in-flight deltas for `to` in front or behind
+    Sync { from: u8, to: u8, picks: Vec<u16>, in_front: bool },
 }
 
 #[derive(Clone, Debug, Serialize, Deserialize)]
@@ -71,26 +109,37 @@ fn sv(parts: &[&str]) -> Vec<String> {
 }
 
 pub fn coord_case_strategy(thorough: bool) -> impl Strategy<Value = CoordCase> {
-    let max_steps = if thorough { 40 } else { 24 };
+    let max_steps = if thorough { 48 } else { 28 };
     let key = || (0usize..8).prop_map(|i| keys()[[0, 0, 1, 1, 2, 2, 3, 0][i]].clone());
+    let hkey = || (0usize..3).prop_map(|i| hkeys()[[0, 0, 1][i]].clone());
+    let fld = || (0usize..3).prop_map(|i| ["f1", "f2", "f3"][i].to_string());
     let val = || (1u32..10).prop_map(|v| v.to_string());
     let cmd = prop_oneof![
         8 => (key(), val()).prop_map(|(k, v)| vec!["SET".to_string(), k, v]),
         3 => key().prop_map(|k| vec!["DEL".to_string(), k]),
-        4 => (key(), key()).prop_map(|(k, k2)| vec!["DEL".to_string(), k, k2]),
+        3 => (key(), key()).prop_map(|(k, k2)| vec!["DEL".to_string(), k, k2]),
         1 => (key(), key(), key()).prop_map(|(k, k2, k3)| vec!["DEL".to_string(), k, k2, k3]),
-        4 => (key(), val(), key(), val()).prop_map(|(k, v, k2, v2)| vec!["MSET".to_string(), k, v, k2, v2]),
-        2 => (key(), key()).prop_map(|(k, k2)| vec!["MGET".to_string(), k, k2]),
-        2 => (key(), key()).prop_map(|(k, k2)| vec!["EXISTS".to_string(), k, k2]),
-        2 => key().prop_map(|k| vec!["GET".to_string(), k]),
+        3 => (key(), val(), key(), val()).prop_map(|(k, v, k2, v2)| vec!["MSET".to_string(), k, v, k2, v2]),
+        1 => (key(), key()).prop_map(|(k, k2)| vec!["MGET".to_string(), k, k2]),
+        1 => (key(), key()).prop_map(|(k, k2)| vec!["EXISTS".to_string(), k, k2]),
+        1 => key().prop_map(|k| vec!["GET".to_string(), k]),
         2 => key().prop_map(|k| vec!["INCR".to_string(), k]),
         1 => (key(), val()).prop_map(|(k, v)| vec!["APPEND".to_string(), k, v]),
+        7 => (hkey(), fld(), val()).prop_map(|(k, f, v)| vec!["HSET".to_string(), k, f, v]),
+        2 => (hkey(), fld(), val(), fld(), val()).prop_map(|(k, f, v, f2, v2)| vec!["HSET".to_string(), k, f, v, f2, v2]),
+        3 => (hkey(), fld()).prop_map(|(k, f)| vec!["HDEL".to_string(), k, f]),
+        2 => (hkey(), fld()).prop_map(|(k, f)| vec!["HINCRBY".to_string(), k, f, "3".to_string()]),
+        1 => hkey().prop_map(|k| vec!["HGETALL".to_string(), k]),
     ];
+    let picks = || proptest::collection::vec(any::<u16>(), 1..7);
     let step = prop_oneof![
-        10 => (0u8..6, cmd).prop_map(|(node, argv)| CStep::Cmd { node, argv }),
-        8 => any::<u16>().prop_map(|idx| CStep::Deliver { idx }),
-        3 => Just(CStep::Deliver { idx: 0 }),
+        12 => (0u8..6, cmd).prop_map(|(node, argv)| CStep::Cmd { node, argv }),
+        5 => any::<u16>().prop_map(|idx| CStep::Deliver { idx }),
+        2 => Just(CStep::Deliver { idx: 0 }),
         1 => any::<u16>().prop_map(|idx| CStep::Dup { idx }),
+        6 => (0u8..6, picks()).prop_map(|(to, picks)| CStep::Batch { to, picks }),
+        2 => (0u8..6, 0u8..6, proptest::collection::vec(any::<u16>(), 0..4), any::<bool>())
+            .prop_map(|(from, to, picks, in_front)| CStep::Sync { from, to, picks, in_front }),
     ];
     (2u8..=3, proptest::collection::vec(step, 3..max_steps)).prop_map(|(nodes, steps)| CoordCase { nodes, steps })
 }
@@ -119,22 +168,43 @@ async fn run(c: &Coord, argv: &[&str]) -> Result<Reply, String> {
     Ok(Reply::from_resp(&c.st.execute(cmd).await))
 }
 
+type Stamp = (u64, u64);
+
+/// (slot, stamp, live content): slot "" = the string register, otherwise a hash field
+fn slots_of(v: &ReplicatedValue) -> Vec<(String, Stamp, Option<Vec<u8>>)> {
+    if let Some(l) = v.lww() {
+        return vec![(
+            String::new(),
+            (l.timestamp.time, l.timestamp.replica_id.0),
+            l.get().map(|s| s.as_bytes().to_vec()),
+        )];
+    }
+    let mut out: Vec<(String, Stamp, Option<Vec<u8>>)> = v
+        .get_hash()
+        .map(|h| {
+            h.iter()
+                .map(|(f, l)| (f.clone(), (l.timestamp.time, l.timestamp.replica_id.0), l.get().map(|s| s.as_bytes().to_vec())))
+                .collect()
+        })
+        .unwrap_or_default();
+    out.sort();
+    out
+}
+
 fn show_rv(v: &ReplicatedValue) -> String {
-    let l = v.lww();
-    format!(
-        "{} outer=({},r{})",
-        match l {
-            Some(l) => format!(
-                "{}@({},r{})",
-                l.get().map(|s| format!("\"{}\"", vcore::show(s.as_bytes()))).unwrap_or_else(|| "<tomb>".into()),
-                l.timestamp.time,
-                l.timestamp.replica_id.0
-            ),
-            None => v.crdt_type().to_string(),
-        },
-        v.timestamp.time,
-        v.timestamp.replica_id.0
-    )
+    let body: Vec<String> = slots_of(v)
+        .iter()
+        .map(|(f, st, val)| {
+            format!(
+                "{}{}@({},r{})",
+                if f.is_empty() { String::new() } else { format!("{}=", f) },
+                val.as_ref().map(|b| format!("\"{}\"", vcore::show(b))).unwrap_or_else(|| "<tomb>".into()),
+                st.0,
+                st.1
+            )
+        })
+        .collect();
+    format!("{}{{{}}} outer=({},r{})", v.crdt_type(), body.join(" "), v.timestamp.time, v.timestamp.replica_id.0)
 }
 
 struct Sys<'a, 'b> {
@@ -148,6 +218,10 @@ struct Sys<'a, 'b> {
     writers: BTreeMap<String, BTreeSet<usize>>,
     trace: Vec<String>,
     tolerated: BTreeSet<String>,
+    /// per (key, slot): the greatest stamp seen on any forwarded delta and its content — what
+    /// merging every delta one by one yields
+    winners: BTreeMap<(String, String), (Stamp, Option<Vec<u8>>)>,
+    batches: u32,
 }
 
 impl<'a, 'b> Sys<'a, 'b> {
@@ -172,12 +246,102 @@ impl<'a, 'b> Sys<'a, 'b> {
         run(&self.nodes[node], &["GET", key]).await
     }
 
+    /// what a client reads: GET for a string key, HGETALL (as sorted pairs) for a hash key
+    async fn served(&self, node: usize, key: &str) -> Result<Reply, String> {
+        if is_hash_key(key) {
+            Ok(run(&self.nodes[node], &["HGETALL", key]).await?.sorted_pairs())
+        } else {
+            self.get(node, key).await
+        }
+    }
+
+    fn expected_from_slots(key: &str, slots: Vec<(String, Option<Vec<u8>>)>) -> Reply {
+        if is_hash_key(key) {
+            let mut pairs: Vec<(Vec<u8>, Vec<u8>)> =
+                slots.into_iter().filter_map(|(f, v)| v.map(|v| (f.into_bytes(), v))).collect();
+            pairs.sort();
+            Reply::Array(pairs.into_iter().flat_map(|(f, v)| [Reply::Bulk(f), Reply::Bulk(v)]).collect())
+        } else {
+            match slots.into_iter().find(|(f, _)| f.is_empty()).and_then(|(_, v)| v) {
+                Some(v) => Reply::Bulk(v),
+                None => Reply::Nil,
+            }
+        }
+    }
+
+    fn note_forwarded(&mut self, d: &ReplicationDelta) {
+        for (f, st, val) in slots_of(&d.value) {
+            let e = self.winners.entry((d.key.clone(), f)).or_insert(((0, 0), None));
+            if st > e.0 {
+                *e = (st, val);
+            }
+        }
+    }
+
+    fn pick_for(&self, to: usize, picks: &[u16]) -> Vec<usize> {
+        let mine: Vec<usize> = (0..self.inflight.len()).filter(|&i| self.inflight[i].2 == to).collect();
+        if mine.is_empty() {
+            return Vec::new();
+        }
+        picks.iter().take(6).map(|p| mine[(*p as usize * mine.len()) >> 16]).collect()
+    }
+
+    /// One `apply_remote_deltas` call with several deltas.
+    async fn batch(&mut self, to: usize, picks: &[u16], sync_from: Option<(usize, bool)>) {
+        let chosen = self.pick_for(to, picks);
+        let mut batch: Vec<ReplicationDelta> = chosen.iter().map(|&i| self.inflight[i].3.clone()).collect();
+        let mut desc: Vec<String> =
+            chosen.iter().map(|&i| format!("#{} {}: {}", self.inflight[i].0, self.inflight[i].3.key, show_rv(&self.inflight[i].3.value))).collect();
+        if let Some((from, in_front)) = sync_from {
+            let snap = self.nodes[from].st.snapshot_state().await;
+            let mut ks: Vec<&String> = snap.keys().collect();
+            ks.sort();
+            let full: Vec<ReplicationDelta> = ks
+                .iter()
+                .map(|k| ReplicationDelta::new((*k).clone(), snap[*k].clone(), ReplicaId::new(from as u64 + 1)))
+                .collect();
+            let fdesc: Vec<String> = full.iter().map(|d| format!("state(n{}) {}: {}", from + 1, d.key, show_rv(&d.value))).collect();
+            if in_front {
+                batch = full.into_iter().chain(batch).collect();
+                desc = fdesc.into_iter().chain(desc).collect();
+            } else {
+                batch.extend(full);
+                desc.extend(fdesc);
+            }
+            self.ctx.label("coord:full_state_batch");
+        }
+        if batch.is_empty() {
+            return;
+        }
+        let per_key: BTreeSet<&String> = batch.iter().map(|d| &d.key).collect();
+        if per_key.len() < batch.len() {
+            self.ctx.label("coord:batch_with_several_deltas_of_one_key");
+        }
+        let authors: BTreeSet<u64> = batch.iter().map(|d| d.source_replica.0).collect();
+        if authors.len() >= 2 {
+            self.ctx.label("coord:batch_with_several_authors");
+        }
+        if batch.len() >= 2 {
+            self.batches += 1;
+        }
+        self.ctx.label("coord:batch");
+        self.trace.push(format!("batch of {} -> n{} in one apply_remote_deltas call: [{}]", batch.len(), to + 1, desc.join(" | ")));
+        self.nodes[to].st.apply_remote_deltas(batch);
+        // the picked deltas have now been delivered
+        let mut gone: Vec<usize> = chosen;
+        gone.sort();
+        gone.dedup();
+        for i in gone.into_iter().rev() {
+            self.inflight.remove(i);
+        }
+    }
+
     async fn command(&mut self, node: usize, argv: &[String]) -> Result<(), String> {
         let args: Vec<&str> = argv.iter().map(|s| s.as_str()).collect();
         let name = args[0].to_ascii_uppercase();
         let named: Vec<String> = match name.as_str() {
             "MSET" => args[1..].chunks(2).map(|c| c[0].to_string()).collect(),
-            "SET" | "INCR" | "APPEND" | "GET" => vec![args[1].to_string()],
+            "SET" | "INCR" | "APPEND" | "GET" | "HSET" | "HDEL" | "HINCRBY" | "HGETALL" => vec![args[1].to_string()],
             _ => args[1..].iter().map(|s| s.to_string()).collect(),
         };
         let distinct: BTreeSet<String> = named.iter().cloned().collect();
@@ -211,7 +375,7 @@ impl<'a, 'b> Sys<'a, 'b> {
             }
         ));
         self.ctx.label(&format!("coord:{}{}", name.to_lowercase(), if multi { "_multi" } else { "" }));
-        let is_write = matches!(name.as_str(), "SET" | "DEL" | "MSET" | "INCR" | "APPEND");
+        let is_write = matches!(name.as_str(), "SET" | "DEL" | "MSET" | "INCR" | "APPEND" | "HSET" | "HDEL" | "HINCRBY");
         if is_write {
             for k in &distinct {
                 self.writers.entry(k.clone()).or_default().insert(node);
@@ -223,6 +387,7 @@ impl<'a, 'b> Sys<'a, 'b> {
             }
         }
         for d in deltas {
+            self.note_forwarded(&d);
             for to in 0..self.nodes.len() {
                 if to != node {
                     self.inflight.push((self.next_id, node, to, d.clone()));
@@ -268,6 +433,24 @@ impl<'a, 'b> Sys<'a, 'b> {
                             format!("n{} {}: acknowledged ({}), but the node still serves {} for {}", node + 1, argv.join(" "), reply.show(), got.show(), k),
                         )?;
                     }
+                }
+            }
+            "HSET" => {
+                for c in args[2..].chunks(2).rev() {
+                    // (a field named twice takes its last value)
+                    if args[2..].chunks(2).filter(|x| x[0] == c[0]).count() > 1 {
+                        continue;
+                    }
+                    let got = run(&self.nodes[node], &["HGET", args[1], c[0]]).await?;
+                    if got != Reply::bulk(c[1]) {
+                        return Err(self.fail(format!("n{} {}: replied {} and then serves {} for field {}", node + 1, argv.join(" "), reply.show(), got.show(), c[0])));
+                    }
+                }
+            }
+            "HDEL" => {
+                let got = run(&self.nodes[node], &["HGET", args[1], args[2]]).await?;
+                if got != Reply::Nil {
+                    return Err(self.fail(format!("n{} {}: replied {} and still serves {}", node + 1, argv.join(" "), reply.show(), got.show())));
                 }
             }
             "MGET" => {
@@ -319,7 +502,7 @@ impl<'a, 'b> Sys<'a, 'b> {
         for key in keys {
             let mut served = Vec::new();
             for i in 0..n {
-                served.push(self.get(i, &key).await?);
+                served.push(self.served(i, &key).await?);
             }
             let describe = (0..n)
                 .map(|i| {
@@ -333,15 +516,31 @@ impl<'a, 'b> Sys<'a, 'b> {
                 .collect::<String>();
             let explained = self.multi.contains(&key);
             let tag = format!("{}:{}", stage, key);
+            // served = the node's own replication state (through vcore::proj::client_view)
             for i in 0..n {
-                let want = match snaps[i].get(&key).map(vcore::proj::client_view) {
-                    Some(v) if v["body"]["type"] == "string" => Reply::Bulk(
-                        // values are plain ASCII digits here, so the escaped rendering is the value
-                        v["body"]["value"].as_str().unwrap_or("").as_bytes().to_vec(),
-                    ),
-                    _ => Reply::Nil,
+                let view = snaps[i].get(&key).map(vcore::proj::client_view);
+                // values are plain ASCII here, so the escaped rendering of the view is the value
+                let slots: Vec<(String, Option<Vec<u8>>)> = match &view {
+                    Some(v) if v["body"]["type"] == "string" => {
+                        vec![(String::new(), Some(v["body"]["value"].as_str().unwrap_or("").as_bytes().to_vec()))]
+                    }
+                    Some(v) if v["body"]["type"] == "hash" => v["body"]["fields"]
+                        .as_array()
+                        .map(|a| {
+                            a.iter()
+                                .map(|p| (p[0].as_str().unwrap_or("").to_string(), Some(p[1].as_str().unwrap_or("").as_bytes().to_vec())))
+                                .collect()
+                        })
+                        .unwrap_or_default(),
+                    _ => Vec::new(),
                 };
-                if served[i] != want {
+                let type_ok = match &view {
+                    Some(v) if v["body"]["type"] == "string" => !is_hash_key(&key),
+                    Some(v) if v["body"]["type"] == "hash" => is_hash_key(&key),
+                    _ => true,
+                };
+                let want = Self::expected_from_slots(&key, slots);
+                if served[i] != want || !type_ok {
                     self.judge(
                         explained,
                         &tag,
@@ -350,8 +549,38 @@ impl<'a, 'b> Sys<'a, 'b> {
                 }
             }
             if served.iter().any(|r| *r != served[0]) {
-                self.judge(explained, &tag, format!("[{}] key {}: replicas answer GET differently{}", stage, key, describe))?;
+                self.judge(explained, &tag, format!("[{}] key {}: replicas answer reads differently{}", stage, key, describe))?;
             }
+            // per-slot LWW winner over every forwarded delta = what merging them one by one
+            // gives, whatever the batching
+            let slots: Vec<(String, Option<Vec<u8>>)> = self
+                .winners
+                .iter()
+                .filter(|((k, _), _)| *k == key)
+                .map(|((_, f), (_, v))| (f.clone(), v.clone()))
+                .collect();
+            let want = Self::expected_from_slots(&key, slots);
+            for i in 0..n {
+                if served[i] != want {
+                    let ws: Vec<String> = self
+                        .winners
+                        .iter()
+                        .filter(|((k, _), _)| *k == key)
+                        .map(|((_, f), (st, v))| {
+                            format!("{}{}@({},r{})", if f.is_empty() { String::new() } else { format!("{}=", f) }, v.as_ref().map(|b| vcore::show(b)).unwrap_or_else(|| "<tomb>".into()), st.0, st.1)
+                        })
+                        .collect();
+                    self.judge(
+                        explained,
+                        &tag,
+                        format!(
+                            "[{}] key {}: n{} serves {} but merging every forwarded delta gives {} (greatest stamp per slot: {}){}",
+                            stage, key, i + 1, served[i].show(), want.show(), ws.join(" "), describe
+                        ),
+                    )?;
+                }
+            }
+            self.ctx.label("coord:winner_checked");
         }
         Ok(())
     }
@@ -370,6 +599,8 @@ pub fn check_coord(case: &CoordCase, ctx: &mut CaseCtx<'_>) -> Result<(), String
             writers: BTreeMap::new(),
             trace: Vec::new(),
             tolerated: BTreeSet::new(),
+            winners: BTreeMap::new(),
+            batches: 0,
         };
         let mut reordered = false;
         for s in &case.steps {
@@ -386,6 +617,17 @@ pub fn check_coord(case: &CoordCase, ctx: &mut CaseCtx<'_>) -> Result<(), String
                             reordered = true;
                         }
                         sys.deliver(i).await;
+                    }
+                }
+                CStep::Batch { to, picks } => {
+                    sys.batch(*to as usize % n, picks, None).await;
+                    reordered = true;
+                }
+                CStep::Sync { from, to, picks, in_front } => {
+                    let (from, to) = (*from as usize % n, *to as usize % n);
+                    if from != to {
+                        sys.batch(to, picks, Some((from, *in_front))).await;
+                        reordered = true;
                     }
                 }
                 CStep::Dup { idx } => {
@@ -411,6 +653,9 @@ pub fn check_coord(case: &CoordCase, ctx: &mut CaseCtx<'_>) -> Result<(), String
         }
         if sys.multi.is_empty() {
             sys.ctx.label("coord:program_without_multi_key_write");
+        }
+        if sys.batches > 0 {
+            sys.ctx.label("coord:program_with_batches");
         }
         sys.verdict("Q1 (every forwarded delta delivered)").await?;
         for round in 0..2 {
